@@ -12,6 +12,7 @@ import (
 
 	"github.com/cockroachdb/errors"
 	"github.com/cockroachdb/errors/errbase"
+	"github.com/cockroachdb/errors/join"
 	"pgregory.net/rapid"
 
 	"verif/gen"
@@ -31,11 +32,13 @@ func draw(t *rapid.T) *pbt.Case {
 		maxB = 10
 	}
 	str := gen.Regular()
-	g := gen.Default(str)
+	// (umultiis: a multi-cause type with its own Is method; nothing is
+	// claimed about Is after transfer here)
+	g := gen.Default(str).With("umultiis")
 	g.WMulti = 2
 	// Construct the feature: a multi-cause node whose branches are
 	// generated chains / trees, below 0-3 wrappers.
-	m := g.MultiOf(t, rapid.SampledFrom(gen.MultiKinds).Draw(t, "topmulti"))
+	m := g.MultiOf(t, rapid.SampledFrom(g.Multi).Draw(t, "topmulti"))
 	for i := range m.X {
 		m.X[i] = g.Draw(t, rapid.IntRange(1, maxB).Draw(t, "branchbudget"))
 	}
@@ -99,7 +102,7 @@ func check(c *pbt.Case, r *pbt.R) {
 		}
 		branches := errbase.UnwrapMulti(M)
 		// Join: branches are the non-nil arguments, in order; text = joined by newlines.
-		if l.Spec.K == "join" || l.Spec.K == "gojoin" {
+		if l.Spec.K == "join" || l.Spec.K == "subjoin" || l.Spec.K == "gojoin" {
 			var texts []string
 			for i, x := range l.Spec.X {
 				// (SameVal: == where defined, DeepEqual for values that cannot be compared)
@@ -114,14 +117,21 @@ func check(c *pbt.Case, r *pbt.R) {
 		}
 		// Join copies its arguments: the caller's slice is left alone, and
 		// what the caller does to it afterwards does not change the join.
-		if l.Spec.K == "join" {
+		if l.Spec.K == "join" || l.Spec.K == "subjoin" {
 			var xs []error
 			for _, x := range l.Spec.X {
 				xs = append(xs, b.Of[x])
 			}
 			args := gen.JoinArgs(l.Spec.I[0], xs)
 			before := append([]error(nil), args...)
-			j := errors.Join(args...)
+			var j, jn error
+			if l.Spec.K == "join" {
+				j = errors.Join(args...)
+				jn = errors.UnwrapOnce(j) // below the stack annotation
+			} else {
+				j = join.Join(args...)
+				jn = j
+			}
 			for i := range args {
 				if !ref.SameVal(args[i], before[i]) {
 					r.Failf("Join modifies the slice of its arguments", "position %d\n%s", i, c.Spec)
@@ -132,7 +142,7 @@ func check(c *pbt.Case, r *pbt.R) {
 			for i := range args {
 				args[i] = clobber
 			}
-			if j.Error() != wantText || len(errbase.UnwrapMulti(errors.UnwrapOnce(j))) != len(xs) {
+			if j.Error() != wantText || len(errbase.UnwrapMulti(jn)) != len(xs) {
 				r.Failf("a Join changes when the caller reuses the slice it was built from", "%q vs %q\n%s", j.Error(), wantText, c.Spec)
 			}
 			if ok, _ := obs.SafeIs(j, clobber); ok {
@@ -269,7 +279,9 @@ func check(c *pbt.Case, r *pbt.R) {
 }
 
 var prop = &pbt.Prop{ID: "C13", Part: "multi-tree", Draw: draw, Check: check,
-	Valid: func(c *pbt.Case) bool { return gen.SpecRegular(c.Spec) && c.Spec.Has(gen.MultiKinds...) }}
+	Valid: func(c *pbt.Case) bool {
+		return gen.SpecRegular(c.Spec) && c.Spec.Has(append(append([]string{}, gen.MultiKinds...), gen.ExtraMultiKinds...)...)
+	}}
 
 func TestProp(t *testing.T) { pbt.Run(t, prop) }
 
@@ -281,7 +293,7 @@ func TestJoinNils(t *testing.T) {
 	n := 0
 	for k := 0; k <= 6; k++ {
 		args := make([]error, k)
-		for _, f := range []func(...error) error{errors.Join, func(a ...error) error { return errors.JoinWithDepth(0, a...) }} {
+		for _, f := range []func(...error) error{errors.Join, join.Join, func(a ...error) error { return errors.JoinWithDepth(0, a...) }} {
 			st.Eval()
 			n++
 			if f(args...) != nil {
